@@ -66,3 +66,43 @@ def build(case):
     if w != 'bin':
         A = graphs.weigh(A, w, case.get('ws', 0), symmetric=not case.get('directed', False))
     return A
+
+
+def dtype_variants_agree(REC, prop, fname, f, X, args=(), kwargs=None, exact=True):
+    """Binary / count matrices are naturally stored as bool or integer arrays.  This harness feeds float64 by
+    convention; here the same VALUES are passed in other dtypes: whenever the routine returns for them, the result
+    must be what it returns for float64 (a routine that raises for a dtype is not judged)."""
+    kwargs = kwargs or {}
+    try:
+        ref = f(X.astype(float), *args, **kwargs)
+    except CaseTimeout:
+        raise
+    except Exception:  # noqa
+        return
+    for dt in (bool, np.int64, np.uint8, np.float32):
+        if dt is bool and not np.all((X == 0) | (X == 1)):
+            continue
+        if dt is np.uint8 and (X.min() < 0 or X.max() > 255 or not np.all(X == np.round(X))):
+            continue
+        if dt is np.int64 and not np.all(X == np.round(X)):
+            continue
+        try:
+            got = f(X.astype(dt), *args, **kwargs)
+        except CaseTimeout:
+            raise
+        except Exception:  # noqa
+            REC.skip(prop, fname, 'dtype_independent')
+            continue
+        REC.check(prop, fname, 'dtype_independent', _same_struct(ref, got, 0.0 if (exact and dt is not np.float32) else 1e-5),
+                  {'X': X, 'dtype': str(np.dtype(dt)), 'float64_result': ref, 'result': got, 'args': list(args)}, ('dtype:' + str(np.dtype(dt)),))
+
+
+def _same_struct(a, b, rtol):
+    if isinstance(a, (list, tuple)):
+        return isinstance(b, (list, tuple)) and len(a) == len(b) and all(_same_struct(x, y, rtol) for x, y in zip(a, b))
+    try:
+        a = np.asarray(a, dtype=float)
+        b = np.asarray(b, dtype=float)
+    except Exception:  # noqa
+        return True
+    return close(a, b, rtol=max(rtol, 1e-12), atol=1e-12 if rtol == 0 else 1e-6)
